@@ -1311,6 +1311,11 @@ func fixedCases() []corr.Case {
 		mk("ring", "cnew syncq", "addn 16 1", "pop", "pop"),
 		mk("ring", "cnew syncq", "addn 32 1", "pop", "addn 31 100", "pop", "pop"),
 		// concurrency scripts (`cnew`): blocked consumers and bursts, run by the scheduler-driven runner of C13
+		// barging: the consumer is signalled, a TryPop takes the item before it runs, it parks again — the next push must
+		// still wake it
+		mk("barge", "cnew syncq", "pop", "atomic add 1 ; trypop", "add 2", "pop", "atomic add 3 ; trypop", "add 4", "close"),
+		mk("barge", "cnew syncq", "pop", "pop", "atomic add 1 ; add 2 ; trypop ; trypop", "add 3", "add 4"),
+		mk("barge", "cnew syncq", "pop", "atomic add 1 ; trypop ; add 2 ; trypop ; add 3"),
 		mk("conc", "cnew syncq", "pop", "pop", "atomic add 1 ; add 2"),
 		mk("conc", "cnew syncq", "pop", "pop", "pop", "atomic add 1 ; add 2 ; add 3", "close"),
 		mk("conc", "cnew q 0", "pop", "atomic add 1 ; close", "popany"),
